@@ -5,16 +5,26 @@
 (* recovery workflow) -- C01, C07, C11 (and the base of C02, C08, C09).    *)
 (*                                                                         *)
 (* A log is a sequence of entries, oldest first, identified by position:   *)
-(*   [k |-> "pol", v]                 policy entry for policy state v      *)
+(*   [k |-> "pol", v, cv, sv]         policy entry for policy state v;     *)
+(*        cv: its root is signed by the threshold of the replaced state's  *)
+(*        root principals, versions do not decrease, no rule file vanishes *)
+(*        (vacuous for the first policy entry: trust on first use);        *)
+(*        sv: root self-signed, primary rule file signed as its own root   *)
+(*        requires, delegated files signed as delegated, none unreachable  *)
 (*   [k |-> "ref", ref, s, tree, par] reference entry signed by s; its     *)
 (*        target commit has tree `tree` and parent = the target of entry   *)
 (*        `par` (an earlier entry for the same ref; 0 = a root commit)     *)
 (*   [k |-> "prop", ref, s, tree, par] propagation entry                   *)
 (*   [k |-> "ann", tg, s]             skip annotation for the entries tg   *)
-(*   [k |-> "att", apps]              attestations entry; apps = the set   *)
+(*   [k |-> "att", apps, crs]         attestations entry; apps = the set   *)
 (*        of authorizations present in that attestation state:             *)
-(*        [ref, from, tree, by] -- approval of moving ref from the target  *)
-(*        of entry `from` (0 = no prior state) to tree `tree`, signed `by` *)
+(*        [ref, from, tree, sref, sfrom, stree, by] -- stored at the path  *)
+(*        for (ref, from, tree) (from = entry whose target is the prior    *)
+(*        state, 0 = none); its signed STATEMENT names (sref, sfrom,       *)
+(*        stree); signed `by`.  crs = code-review approvals:               *)
+(*        [ref, from, tree, sref, sfrom, stree, app, signer, approvers,    *)
+(*         dismissed] stored likewise, for app `app`, envelope signed by   *)
+(*        key `signer`, naming principals (by identity) as approvers       *)
 (*   [k |-> "stg"]                    policy-staging entry                 *)
 (* Signers: principals, "kU" (a key no policy knows), "none" (unsigned).   *)
 (*                                                                         *)
@@ -24,6 +34,7 @@
 (*   gthr       : set of [refs, thr] threshold global rules                *)
 (*   bfp        : set of refs under a block-force-pushes global rule       *)
 (*   all        : every principal the policy state defines                 *)
+(*   apps       : code-review apps: name -> [trusted, key]                 *)
 (*                                                                         *)
 (* Layer D: Authorized / Tolerated / DVerdict.                             *)
 (* Layer I: Impl -- the entry queue with its recovery loop as coded.       *)
@@ -34,6 +45,11 @@
 (*       search, so delegation verifiers are never evaluated               *)
 (*  "FixEntryNotVerified"             the fix entry of a recovery is not   *)
 (*       itself checked against policy                                     *)
+(*  "CodeReviewApprovalNotRevalidated" a code-review approval found by its *)
+(*       storage path is not checked to name the change being verified     *)
+(*  "InRangePolicyNotSelfVerified"    only the policy state a verification *)
+(*       starts from is self-verified; intermediate and in-range policy    *)
+(*       states get the chain check (VerifyNewState) only                  *)
 (***************************************************************************)
 EXTENDS Integers, Sequences, FiniteSets, SequencesExt, FiniteSetsExt, TLC
 
@@ -55,22 +71,41 @@ Descends(l, a, b) == IF a = b THEN TRUE ELSE IF a = 0 \/ l[a].par = 0 THEN FALSE
 (***************************************************************************)
 (* Layer D                                                                 *)
 (***************************************************************************)
-\* approvals bound to exactly this change in the attestation state recorded before the entry
-Approvers(l, i) ==
-    LET a == AttPosAt(l, i) IN
+\* Approvals whose signed statement names exactly this change, in the attestation state recorded before the
+\* entry.  The statement is a necessary condition ("counts only if"): with up = TRUE every such approval is
+\* taken wherever it is stored (upper bound of what may count); with up = FALSE only those also stored at
+\* the change's own path (what an honest approver produces; lower bound of what must count).
+Names(x, l, i) == x.sref = l[i].ref /\ x.sfrom = PrevFor(l, i) /\ x.stree = l[i].tree
+AtOwnPath(x)   == x.sref = x.ref /\ x.sfrom = x.from /\ x.stree = x.tree
+AppTrusted(p, a) == a \in DOMAIN p.apps /\ p.apps[a].trusted
+Approvers(l, i, up) ==
+    LET a == AttPosAt(l, i) pp == PolPosAt(l, i) IN
     IF a = 0 THEN {}
-    ELSE UNION {x.by : x \in {y \in l[a].apps : y.ref = l[i].ref /\ y.from = PrevFor(l, i) /\ y.tree = l[i].tree}}
-SignersOf(l, i) == ({l[i].s} \cup Approvers(l, i)) \ {"kU", "none"}
+    ELSE UNION {x.by : x \in {y \in l[a].apps : Names(y, l, i) /\ (up \/ AtOwnPath(y))}}
+         \cup (IF pp = 0 THEN {}
+                ELSE UNION {x.approvers \ x.dismissed : x \in {y \in l[a].crs : /\ Names(y, l, i) /\ (up \/ AtOwnPath(y))
+                                                                               /\ AppTrusted(Pol[l[pp].v], y.app)
+                                                                               /\ y.signer = Pol[l[pp].v].apps[y.app].key}})
+\* an approval found at the change's path whose statement names something else, or a code-review approval there
+\* that the app's key did not sign, makes the code refuse the entry (fail closed): the lower bound respects that
+Poisoned(l, i) ==
+    LET a == AttPosAt(l, i) pp == PolPosAt(l, i)
+        AtPath(y) == y.ref = l[i].ref /\ y.from = PrevFor(l, i) /\ y.tree = l[i].tree IN
+    a # 0 /\ (\/ \E y \in l[a].apps : AtPath(y) /\ ~AtOwnPath(y)
+              \/ pp # 0 /\ \E y \in l[a].crs : AtPath(y) /\ AppTrusted(Pol[l[pp].v], y.app)
+                                              /\ (~AtOwnPath(y) \/ y.signer # Pol[l[pp].v].apps[y.app].key))
+SignersOf(l, i, up) == ({l[i].s} \cup Approvers(l, i, up)) \ {"kU", "none"}
 
 DelegOK(p, r, S) == p.rules[r] = <<>> \/ \E n \in DOMAIN p.rules[r] : Cardinality(S \cap p.rules[r][n].pr) >= p.rules[r][n].thr
 GlobalOK(l, i, p, S) ==
     /\ \A gr \in p.gthr : l[i].ref \in gr.refs => Cardinality(S \cap p.all) >= gr.thr
     /\ l[i].ref \in p.bfp => LET q == PrevUnskipped(l, i) IN q = 0 \/ Descends(l, i, q)
 
-Authorized(l, i) ==
+Authorized(l, i, up) ==
     LET pp == PolPosAt(l, i) IN
     /\ pp # 0
-    /\ LET p == Pol[l[pp].v] S == SignersOf(l, i) IN DelegOK(p, l[i].ref, S) /\ GlobalOK(l, i, p, S)
+    /\ (up \/ ~Poisoned(l, i))
+    /\ LET p == Pol[l[pp].v] S == SignersOf(l, i, up) IN DelegOK(p, l[i].ref, S) /\ GlobalOK(l, i, p, S)
 
 \* C07: the violation at i is revoked and repaired
 LastGood(l, i) == LatestBefore(l, i, LAMBDA j : l[j].k = "ref" /\ l[j].ref = l[i].ref /\ ~Skipped(l, j))
@@ -84,20 +119,32 @@ Tolerated(l, i) ==
     /\ \A m \in (i + 1)..(FixOf(l, i) - 1) : (l[m].k = "ref" /\ l[m].ref = l[i].ref) => Skipped(l, m)
 
 \* the documented verdict for ref r looking at entries from position `from` on
-RECURSIVE DOk(_, _, _, _)
-DOk(l, r, from, fixMustBeAuthorized) ==
-    LET V == {i \in from..Len(l) : IsFor(l[i], r) /\ ~Authorized(l, i)} IN
+RECURSIVE DOk(_, _, _, _, _)
+DOk(l, r, from, fixMustBeAuthorized, up) ==
+    LET V == {i \in from..Len(l) : IsFor(l[i], r) /\ ~Authorized(l, i, up)} IN
     IF V = {} THEN TRUE
     ELSE LET i == Min(V) IN
          /\ Tolerated(l, i)
-         /\ (fixMustBeAuthorized => Authorized(l, FixOf(l, i)))
-         /\ DOk(l, r, FixOf(l, i) + 1, fixMustBeAuthorized)
+         /\ (fixMustBeAuthorized => Authorized(l, FixOf(l, i), up))
+         /\ DOk(l, r, FixOf(l, i) + 1, fixMustBeAuthorized, up)
+
+\* C02: every policy entry a verification up to position `upto` depends on is chain- and self-valid
+PolPositions(l, upto) == {k \in 1..upto : l[k].k = "pol"}
+FirstPol(l) == Min({k \in 1..Len(l) : l[k].k = "pol"})
+PoliciesOK(l, upto) == \A k \in PolPositions(l, upto) : (k = FirstPol(l) \/ l[k].cv) /\ l[k].sv
 
 HasEntries(l, r) == \E i \in 1..Len(l) : IsFor(l[i], r)
 LatestFor(l, r)  == Max({i \in 1..Len(l) : IsFor(l[i], r)})
 \* C01 (every unrevoked entry authorised; repaired violations need an authorised fix) and C07 (fix need not be)
-DVerdictC01(l, r) == IF ~HasEntries(l, r) THEN "none" ELSE IF DOk(l, r, 1, TRUE) THEN "ok" ELSE "fail"
-DVerdictC07(l, r) == IF ~HasEntries(l, r) THEN "none" ELSE IF DOk(l, r, 1, FALSE) THEN "ok" ELSE "fail"
+\* (`up`: upper / lower bound, see Approvers; they coincide when every approval is stored at its own path)
+DVerdictC01(l, r, up) == IF ~HasEntries(l, r) THEN "none" ELSE IF PoliciesOK(l, LatestFor(l, r)) /\ DOk(l, r, 1, TRUE, up) THEN "ok" ELSE "fail"
+DVerdictC07(l, r, up) == IF ~HasEntries(l, r) THEN "none" ELSE IF PoliciesOK(l, LatestFor(l, r)) /\ DOk(l, r, 1, FALSE, up) THEN "ok" ELSE "fail"
+\* latest-only and from-entry modes
+DVerdictLatest(l, r, up) == IF ~HasEntries(l, r) THEN "none"
+                            ELSE IF PoliciesOK(l, LatestFor(l, r)) /\ Authorized(l, LatestFor(l, r), up) THEN "ok" ELSE "fail"
+DVerdictFrom(l, r, i, up) == IF PoliciesOK(l, LatestFor(l, r)) /\ DOk(l, r, i, TRUE, up) THEN "ok" ELSE "fail"
+\* an observed or modelled verdict v lies between the bounds
+Between(v, lo, hi) == (v = "ok" => hi = "ok") /\ (lo = "ok" => v = "ok") /\ (v = "none" <=> hi = "none")
 
 (***************************************************************************)
 (* Layer I                                                                 *)
@@ -105,12 +152,17 @@ DVerdictC07(l, r) == IF ~HasEntries(l, r) THEN "none" ELSE IF DOk(l, r, 1, FALSE
 \* verifyGitObjectAndAttestations for entry i under policy p
 VerifyEntryI(l, i, p, attPos, Dev) ==
     LET r == l[i].ref
-        S == ({l[i].s} \cup (IF attPos = 0 THEN {}
-                             ELSE UNION {x.by : x \in {y \in l[attPos].apps : y.ref = r /\ y.from = PrevFor(l, i) /\ y.tree = l[i].tree}}))
-             \ {"kU", "none"}
+        AtPath(y) == y.ref = r /\ y.from = PrevFor(l, i) /\ y.tree = l[i].tree
+        StmtOK(y) == y.sref = y.ref /\ y.sfrom = y.from /\ y.stree = y.tree
+        auths == IF attPos = 0 THEN {} ELSE {y \in l[attPos].apps : AtPath(y)}
+        crs   == IF attPos = 0 THEN {} ELSE {y \in l[attPos].crs : AtPath(y) /\ AppTrusted(p, y.app)}
+        S == ({l[i].s} \cup UNION {x.by : x \in auths} \cup UNION {x.approvers : x \in crs}) \ {"kU", "none"}
         hasGlobal == p.gthr # {} \/ p.bfp # {}
         deleg == p.rules[r]
-    IN IF ~hasGlobal /\ deleg = <<>> THEN TRUE                                  \* no verifiers: unprotected
+    IN IF \E y \in auths : ~StmtOK(y) THEN FALSE                                   \* authorization found by path is validated: fail closed
+       ELSE IF \E y \in crs : y.signer # p.apps[y.app].key THEN FALSE              \* approval not signed by the app's key
+       ELSE IF "CodeReviewApprovalNotRevalidated" \notin Dev /\ \E y \in crs : ~StmtOK(y) THEN FALSE
+       ELSE IF ~hasGlobal /\ deleg = <<>> THEN TRUE                                 \* no verifiers: unprotected
        ELSE /\ (IF hasGlobal /\ "ExhaustiveVerifierShortCircuit" \in Dev THEN TRUE    \* the exhaustive verifier always succeeds first
                 ELSE DelegOK(p, r, S))
             /\ GlobalOK(l, i, p, S)
@@ -125,7 +177,11 @@ RECURSIVE Recover(_, _, _, _, _, _, _, _, _)
 Walk(l, r, q, cp, ca, Dev) ==
     IF q = <<>> THEN "ok"
     ELSE LET i == Head(q) rest == Tail(q) IN
-    CASE l[i].k = "pol" -> Walk(l, r, rest, i, ca, Dev)                          \* (chain validity is C02's concern)
+    CASE l[i].k = "pol" ->
+           \* VerifyNewState against the current policy (none: the first policy is trusted on first use)
+           IF cp # 0 /\ ~l[i].cv THEN "policyinvalid"
+           ELSE IF "InRangePolicyNotSelfVerified" \notin Dev /\ ~l[i].sv THEN "policyinvalid"
+           ELSE Walk(l, r, rest, i, ca, Dev)
       [] l[i].k = "att" -> Walk(l, r, rest, cp, i, Dev)
       [] l[i].k = "prop" -> IF "PropagationEntryNotVerified" \in Dev THEN Walk(l, r, rest, cp, ca, Dev)
                             ELSE IF cp = 0 THEN "nopolicy"
@@ -155,13 +211,25 @@ Recover(l, r, q, goodTree, nq, badInter, cp, ca, Dev) ==
 
 FirstFor(l, r) == Min({i \in 1..Len(l) : IsFor(l[i], r)})
 
-\* VerifyRefFull
-Impl(l, r, Dev) ==
-    IF ~HasEntries(l, r) THEN "none"
-    ELSE LET first == FirstFor(l, r) last == LatestFor(l, r)
-             cp == PolPosAt(l, first) ca == AttPosAt(l, first) IN
-         \* a missing initial policy is tolerated; verification fails only when an entry has to be verified without one
-         Walk(l, r, QueueOf(l, r, first, last), cp, ca, Dev)
+\* LoadState(p): chain every policy entry from the first one to p, self-verify (as coded) only p
+LoadStateOK(l, p, Dev) ==
+    LET first == FirstPol(l) IN
+    /\ \A k \in PolPositions(l, p) : k = first \/ l[k].cv
+    /\ l[p].sv
+    /\ ("InRangePolicyNotSelfVerified" \in Dev \/ \A k \in PolPositions(l, p) : l[k].sv)
+
+\* VerifyRelativeForRef(first, last)
+ImplRange(l, r, first, last, Dev) ==
+    LET cp == IF l[first].k = "pol" THEN first ELSE PolPosAt(l, first)
+        ca == AttPosAt(l, first) IN
+    \* a missing initial policy is tolerated; verification fails only when an entry has to be verified without one
+    IF cp # 0 /\ ~LoadStateOK(l, cp, Dev) THEN "policyinvalid"
+    ELSE Walk(l, r, QueueOf(l, r, first, last), cp, ca, Dev)
+
+\* VerifyRefFull / VerifyRef (latest only) / VerifyRefFromEntry
+Impl(l, r, Dev) == IF ~HasEntries(l, r) THEN "none" ELSE ImplRange(l, r, FirstFor(l, r), LatestFor(l, r), Dev)
+ImplLatest(l, r, Dev) == IF ~HasEntries(l, r) THEN "none" ELSE ImplRange(l, r, LatestFor(l, r), LatestFor(l, r), Dev)
+ImplFrom(l, r, i, Dev) == ImplRange(l, r, i, LatestFor(l, r), Dev)
 
 OkOrFail(v) == IF v \in {"ok", "none"} THEN v ELSE "fail"
 =============================================================================
